@@ -56,12 +56,6 @@ var mergerGuardExemptions = map[string]string{
 		"Its kind is NOT compared: `interface Node` in one service and `type Node {…}` in another merge silently in one order and fail in LoadSchema in the other (fourth audit, M-C2: a recorded weakness of pebbles, not covered by C05's kind-collision claim)",
 }
 
-// mergerRecordedDefects: obligations that fail on the pinned tree and are reported as known
-// findings until pebbles is repaired (fourth audit). The key is the construct of the obligation.
-var mergerRecordedDefects = map[string]string{
-	"members compared between the two definitions (PossibleTypes)": "M-C1: the interface branch of mergeTypes builds both name lists from the same schema (`as.PossibleTypes[va.Name]` and `as.PossibleTypes[nvb.Name]`, one name): the comparison can never fire, `interface Shape` with {Circle} in one service and {Square, Triangle} in the other merges silently",
-}
-
 func isNodePredicateCall(v ssa.Value) (*ssa.Call, bool) {
 	c, ok := v.(*ssa.Call)
 	if !ok || !strings.HasSuffix(calleeName(&c.Call), "merger.isImplementsNodeInterface") || len(c.Call.Args) != 1 {
@@ -314,13 +308,9 @@ func ruleMergerGuards(r *Run) {
 			}
 			construct := "members compared between the two definitions (" + setNames(fields) + ")"
 			distinct := len(ra) > 0 && len(rb) > 0 && !sameStringSet(ra, rb)
-			if why, known := mergerRecordedDefects[construct]; known && !distinct {
-				r.add(&Oblig{Rule: rule, Func: name, Construct: construct, Site: site, Status: "known", Argument: "the two member lists handed to lo.Difference are read from the same place (" + setNames(ra) + "): the comparison cannot fire [recorded defect: " + why + "]"})
-			} else {
-				r.Check(distinct, rule, name, construct, site,
-					"the two lists handed to lo.Difference are read from different definitions ("+setNames(ra)+" / "+setNames(rb)+")",
-					"the two member lists handed to lo.Difference are read from the same place ("+setNames(ra)+"): a set is compared with itself and conflicting member sets are never noticed")
-			}
+			r.Check(distinct, rule, name, construct, site,
+				"the two lists handed to lo.Difference are read from different definitions ("+setNames(ra)+" / "+setNames(rb)+")",
+				"the two member lists handed to lo.Difference are read from the same place ("+setNames(ra)+"): a set is compared with itself and conflicting member sets are never noticed")
 			var parts [2]ssa.Value
 			for _, ref := range *c.Referrers() {
 				if ex, ok := ref.(*ssa.Extract); ok && ex.Index < 2 {
